@@ -285,6 +285,11 @@ def raw_cases(tier):
     for a in strs[:6]:
         for b in ints:
             cases.append(shape + ('str', (('n', 0, 'P', a), ('n', 0, 'I', b), ('e', 1, 'K', b))))
+    # properties the library's validation treats as JSON text: nothing set ('' - what the codecs write for an empty value),
+    # the database's word for nothing ('None'), and JSON
+    for pname in ('Capacities', 'Labels', 'ERO', 'PathInfo', 'UserData'):
+        for val in ('', 'None', '{"a": 1}'):
+            cases.append(shape + ('int', (('n', 0, pname, V.index(val)),)))
     # ONE property name carrying a string on one element and an int on another (two nodes; a node and a link; two links)
     for a in [strs[0], strs[2], V.index('0'), V.index('true')]:
         for b in ints[:3]:
